@@ -111,9 +111,9 @@ def witnesses(gs, which):
 
 def check_identities(rep, tier, which):
     rule = "A." + which
-    gs = [g for g in groups.catalogue("quick")]
+    gs = [g for g in groups.catalogue("quick")] + [g for g in groups.catalogue("thorough") if g.key == "B_commutative"]
     if tier == "thorough":
-        gs += [g for g in groups.catalogue("thorough") if g.key in ("SE_1_3d", "B_SE3d_SO2d_V3d_C1d", "B_nested", "B_commutative")]
+        gs += [g for g in groups.catalogue("thorough") if g.key in ("SE_1_3d", "B_SE3d_SO2d_V3d_C1d", "B_nested")]
     rep.rule(rule, "algebraic identity holds as an exact polynomial identity modulo the representation constraints, on every path", minimum={"C04": 5}.get(which, 20))
     W = witnesses(gs, which)
     facts = W.build()
